@@ -88,6 +88,11 @@ def as_bytes(engine, v):
     if isinstance(v, Opaque) and isinstance(v.payload, Bytes):
         # value of an external text format: its text form is the string it was parsed from (assumption)
         return v.payload
+    if getattr(v, "hash_term", False) and v.kind == "data" and engine is not None and getattr(getattr(engine, "ctx", None), "sha_bytes", False):
+        # the 32 bytes of an ideal SHA-256 value (opt-in harnesses): slices of its 256-bit variable
+        from .merkle import sha_bv
+        h = sha_bv(engine.ctx, v.a)
+        return bytes_from_ints([simp_int(z3.Extract(255 - 8 * i, 248 - 8 * i, h), 8, False) for i in range(32)])
     raise Untranslatable("as_bytes of %s" % type(v).__name__)
 
 
